@@ -7,6 +7,7 @@ import (
 	"fmt"
 	"strings"
 
+	"go.pennock.tech/tabular/auto"
 	"go.pennock.tech/tabular/length"
 	"go.pennock.tech/tabular/properties/align"
 	"go.pennock.tech/tabular/texttable"
@@ -20,6 +21,13 @@ type Case struct {
 	Script gen.Script   `json:"script"`
 	Deco   gen.DecoSpec `json:"deco"`
 	Align  []int        `json:"align,omitempty"` // [0] = column 0 (default), [i] = column i; 0 unset 1 left 2 right 3 centre
+	// Also: other renderers wrapped around the same table after the text wrapper exists ("markdown", "csv", "json",
+	// "html", "texttable"; a trailing "!" = also render once through it).  Renders: how often the text wrapper renders (>= 1).
+	Also    []string `json:"also,omitempty"`
+	Renders int      `json:"renders,omitempty"`
+	// Pre > 0: the text wrapper is created and rendered once after Pre-1 operations, while the table is still
+	// incomplete; the final renders go through that same wrapper.
+	Pre int `json:"pre,omitempty"`
 }
 
 func AlignValue(a int) align.Alignment {
@@ -42,10 +50,21 @@ type Prepared struct {
 	InDom bool // at least one column, and the column count is unambiguous
 	// BadNCols is set (to the reported value) when NColumns() disagrees with the build history.
 	BadNCols int
+	// Unspecified: a width-declaring item without exactly one text line (possible after a mutation)
+	Unspecified bool
 }
 
 func Prepare(c Case) Prepared {
-	t, m := gen.Build(c.Script)
+	t := gen.NewTable(c.Script.Creator)
+	m := &gen.Model{}
+	var early *texttable.TextTable
+	for i, op := range c.Script.Ops {
+		if c.Pre > 0 && i == c.Pre-1 {
+			early = texttable.Wrap(t)
+			early.Render()
+		}
+		m.Step(t, op)
+	}
 	p := Prepared{Model: m}
 	n := m.NCols()
 	if n == 0 || n != m.MaxEver {
@@ -64,13 +83,31 @@ func Prepare(c Case) Prepared {
 		}
 	}
 	deco, boxless := c.Deco.Make()
-	p.TT = texttable.Wrap(t)
+	if early != nil {
+		p.TT = early
+	} else {
+		p.TT = texttable.Wrap(t)
+	}
 	if c.Deco.Custom == nil && !c.Deco.ByCtor && c.Deco.Name != "" {
 		p.TT.SetDecorationNamed(c.Deco.Name)
 	} else if !(c.Deco.Custom == nil && c.Deco.Name == "") {
 		p.TT.SetDecoration(deco)
 	}
 	p.Spec = oracle.SpecOf(m, al, deco, boxless)
+	// the statement covers width-declaring items with exactly one text line only; a mutation may have left such an
+	// item with no line or several: what that does to the column is unspecified, so the case is out of domain
+	chk := func(cells []oracle.TCell) {
+		for _, cl := range cells {
+			if cl.DeclW >= 0 && len(cl.Lines) != 1 {
+				p.InDom = false
+				p.Unspecified = true
+			}
+		}
+	}
+	chk(p.Spec.Header)
+	for _, r := range p.Spec.Rows {
+		chk(r.Cells)
+	}
 	return p
 }
 
@@ -78,18 +115,37 @@ func Prepare(c Case) Prepared {
 func Check(c Case) *ev.Violation {
 	p := Prepare(c)
 	if !p.InDom {
+		if p.Unspecified {
+			return nil
+		}
 		if p.Model.NCols() > 0 && p.Model.NCols() == p.Model.MaxEver {
 			return ev.V("NColumns()=%d but the build history has %d columns", p.BadNCols, p.Model.NCols())
 		}
 		return nil
 	}
-	out, err := p.TT.Render()
-	if err != nil {
-		return ev.V("text render failed: %v", err)
+	gen.ScrambleRowsCopy(p.TT)
+	for _, k := range c.Also {
+		render := strings.HasSuffix(k, "!")
+		w := auto.Wrap(p.TT.Table, strings.TrimSuffix(k, "!"))
+		if render {
+			w.Render()
+		}
 	}
 	want := oracle.RenderText(p.Spec)
-	if out != want {
-		return ev.V("rendered table differs from the reference rendering: %s\n--- got\n%s--- want\n%s", firstDiff(out, want), out, want)
+	renders := c.Renders
+	if renders < 1 {
+		renders = 1
+	}
+	var out string
+	for i := 0; i < renders; i++ {
+		var err error
+		out, err = p.TT.Render()
+		if err != nil {
+			return ev.V("text render %d failed: %v", i+1, err)
+		}
+		if out != want {
+			return ev.V("rendered table (render %d of %d, other wrappers on the table: %v) differs from the reference rendering: %s\n--- got\n%s--- want\n%s", i+1, renders, c.Also, firstDiff(out, want), out, want)
+		}
 	}
 	// Independent of the reference renderer: every line has the same display
 	// width by the library's own measure (only where that measure is additive
@@ -146,10 +202,26 @@ func Describe(c Case) Facts {
 		}
 	}
 	if !p.InDom {
-		cl("out-of-domain-no-columns")
+		if p.Unspecified {
+			cl("out-of-domain-width-declaring-item-not-single-line")
+		} else {
+			cl("out-of-domain-no-columns")
+		}
 		return f
 	}
 	cl("deco-" + c.Deco.Label())
+	if len(c.Also) > 0 {
+		cl("other-wrappers-on-the-table")
+	}
+	if c.Renders > 1 {
+		cl("rendered-more-than-once")
+	}
+	if c.Pre > 0 && c.Pre <= len(c.Script.Ops) {
+		cl("rendered-while-incomplete")
+	}
+	if m.Mutated {
+		cl("item-mutated-and-updated")
+	}
 	all := func(fn func(gen.MCell)) {
 		for _, x := range m.Header {
 			fn(x)
